@@ -70,6 +70,8 @@ type callObs struct {
 	Res      string // ok nospace ctx closed other
 	Parked   bool
 	QFullSel bool
+	Selected bool // the call reached its enqueue select ...
+	Enqueued bool // ... and the queue grew by one during that step
 	Payload  []byte
 }
 
@@ -86,6 +88,7 @@ type obs struct {
 	TClosed    int
 	Parked     []string
 	MaxQ       int
+	TwoSenders string // two goroutines were inside the sender's token region (poll .. flush) at the same time
 	WriteSteps []int  // synchronous channel: call id of every t.write / t.writev step, in order (k-th step = k-th transport write event)
 	MaxUnsent  int    // largest number of payloads accepted (call returned ok) and not yet handed to the transport
 	Winner     int    // id of the Close call that took effect (-1: closed from inside, -2: never closed)
@@ -161,7 +164,27 @@ func runCfg(c cfg, choose func(step int, en []*sched.Thread, last *sched.Thread)
 	cur := map[int]*callObs{}
 	closeReturned := false
 	writersLeft := 0
+	var selCall *callObs
+	selQLen := 0
+	settle := func() {
+		if selCall != nil {
+			selCall.Enqueued = netty.VerifState(ch).QLen == selQLen+1
+			selCall = nil
+		}
+	}
 	s.OnStep = func(t *sched.Thread) {
+		settle()
+		if c.QCap > 0 && o.TwoSenders == "" {
+			var in []string
+			for _, th := range s.All {
+				if !th.Done() && (th.Point == "s.poll" || th.Point == "s.writev" || th.Point == "s.len1" || th.Point == "s.flush") {
+					in = append(in, th.Name+"@"+th.Point)
+				}
+			}
+			if len(in) >= 2 {
+				o.TwoSenders = strings.Join(in, ", ")
+			}
+		}
 		st := netty.VerifState(ch)
 		if st.QLen > o.MaxQ {
 			o.MaxQ = st.QLen
@@ -193,6 +216,7 @@ func runCfg(c cfg, choose func(step int, en []*sched.Thread, last *sched.Thread)
 		if t.Point == "w.select" {
 			if cl := cur[t.Index]; cl != nil {
 				cl.QFullSel = st.QLen == st.QCap
+				cl.Selected, selCall, selQLen = true, cl, st.QLen
 			}
 		}
 	}
@@ -330,6 +354,7 @@ func runCfg(c cfg, choose func(step int, en []*sched.Thread, last *sched.Thread)
 		return en[k]
 	})
 	noteWinner()
+	settle()
 	if s.Stuck != nil {
 		o.Stuck = s.Stuck.Name + "@" + s.Stuck.Point
 	}
@@ -460,12 +485,24 @@ func check(c cfg, o *obs, meta *hx.Meta) {
 	}
 	// back-pressure
 	for _, cl := range o.Calls {
+		if c.QCap > 0 && cl.Res == "ok" && cl.Selected && !cl.Enqueued {
+			what := fmt.Sprintf("call %d.%d reported success but nothing was enqueued by its select (the channel context or the caller's context had ended while it waited for queue space: it must return that error)", cl.W, cl.K)
+			meta.Violate(hx.Violation{Property: "C18", What: what, Signature: "ok-not-enqueued", Replay: rep()})
+			meta.Violate(hx.Violation{Property: "C11", What: what, Signature: "ok-not-enqueued", Replay: rep()})
+			meta.Violate(hx.Violation{Property: "C01", What: what, Signature: "ok-not-enqueued", Replay: rep()})
+		}
 		if cl.Res == "nospace" && !cl.QFullSel {
 			meta.Violate(hx.Violation{Property: "C18", What: "ErrAsyncNoSpace although the queue was not full", Signature: "nospace", Replay: rep()})
 		}
 		if cl.Res == "nospace" && c.Until {
 			meta.Violate(hx.Violation{Property: "C18", What: "ErrAsyncNoSpace in blocking mode", Signature: "nospace", Replay: rep()})
 		}
+	}
+	if o.TwoSenders != "" {
+		what := "two goroutines are sending at the same time (both between polling the queue and the flush): " + o.TwoSenders + " - two batches are in flight, beyond the queue size plus ONE batch"
+		meta.Violate(hx.Violation{Property: "C18", What: what, Signature: "two-senders", Replay: rep()})
+		meta.Violate(hx.Violation{Property: "C01", What: what, Signature: "two-senders", Replay: rep()})
+		meta.Violate(hx.Violation{Property: "C02", What: what, Signature: "two-senders", Replay: rep()})
 	}
 	if c.QCap > 0 && o.MaxUnsent > c.QCap+c.QCap/2+1 {
 		meta.Violate(hx.Violation{Property: "C18", What: fmt.Sprintf("%d payloads accepted and not yet sent: more than the queue size %d plus one batch (%d)", o.MaxUnsent, c.QCap, c.QCap/2+1), Signature: "bound", Replay: rep()})
